@@ -26,6 +26,11 @@ def cmd_check(a):
     try:
         mod = load(a.prop)
         mod.run(chk)
+        if tier == "thorough" and hasattr(mod, "selftest"):
+            # the binding self-test: a corrupted trace / flipped expectation must be rejected where it was corrupted
+            if not mod.selftest():
+                raise vlib.ToolError("binding self-test of %s failed: the validator no longer rejects a corrupted observation" % a.prop)
+            chk.part("binding_selftest", corrupted_observation_rejected=True)
         rc = chk.finish()
     except vlib.ToolError as e:
         print("TOOL-ERROR property=%s %s" % (a.prop, str(e)[:3000]), flush=True)
